@@ -3,10 +3,13 @@ package main
 // Cases added after the eighth round of seeded changes (DESIGN 14.10).
 
 import (
+	"bytes"
 	"io/ioutil"
+	"strconv"
 	"strings"
 
 	"github.com/gobwas/ws"
+	"github.com/gobwas/ws/wsflate"
 )
 
 func init() {
@@ -22,6 +25,12 @@ func init() {
 	r8Wrap("C01", r8C01)
 	r8Wrap("C02", r8C02)
 	r8Wrap("C03", r8C03)
+	r8Wrap("C12", r8C12)
+	r8Wrap("C16", r8C12)
+	replayers["C12WT"] = func(c *ctx, in []string) {
+		k, _ := strconv.Atoi(in[1])
+		c12WT(c, in[0], k, c12ParseOps(in[2]))
+	}
 	// a destination that itself writes frames while it is being written to (a WebSocket tunnelled in a WebSocket, a
 	// logging writer): re-entrancy into the library from inside Write
 	dwDresses = append(dwDresses, "reentrant")
@@ -100,5 +109,89 @@ func r8C03(c *ctx) {
 	for _, n := range []int{131, 200, 255, 256, 257, 300, 378, 379, 380, 512, 600, 1000, 65535, 65536, 65541} {
 		c03B(c, 1000, []byte(strings.Repeat("r", n)))
 		c03B(c, 4999, []byte(strings.Repeat("\xc3\xa9", n/2)))
+	}
+}
+
+// r8-C12: a destination that refuses exactly ONE write and then works again (a deadline that expired once, a full
+// socket buffer): the refused bytes are lost, so some operation must report the failure - a message that went out with a
+// hole in it must not be reported as written.  C12WT <comp> <k> <ops> -> <results> <refused 0|1> <z>
+type onceFailDst struct {
+	log     [][]byte
+	calls   int
+	failAt  int
+	refused bool
+}
+
+func (d *onceFailDst) Write(p []byte) (int, error) {
+	d.calls++
+	if d.calls-1 == d.failAt {
+		d.refused = true
+		return 0, errDst
+	}
+	d.log = append(d.log, append([]byte{}, p...))
+	return len(p), nil
+}
+
+func c12WT(c *ctx, comp string, k int, ops []c12wop) {
+	var taps []*tap
+	dst := &onceFailDst{failAt: k}
+	w := wsflate.NewWriter(dst, c12Ctor(comp, &taps))
+	var res []string
+	var accepted []byte
+	z := "-"
+	for _, o := range ops {
+		n := 0
+		var err error
+		switch o.kind {
+		case 'W':
+			n, err = w.Write(o.data)
+			accepted = append(accepted, o.data[:n]...)
+		case 'F':
+			err = w.Flush()
+		case 'C':
+			err = w.Close()
+		}
+		res = append(res, strconv.Itoa(n)+":"+b2s(err == nil))
+		if err == nil && (o.kind == 'F' || o.kind == 'C') {
+			var flat []byte
+			for _, ch := range dst.log {
+				flat = append(flat, ch...)
+			}
+			if !getPy().ok {
+				z = "na"
+			} else if out, ok := getPy().inflate(append(flat, 0, 0, 0xff, 0xff)); ok && bytes.Equal(out, accepted) {
+				z = "1"
+			} else {
+				z = "0"
+			}
+		}
+	}
+	c.emit("C12WT %s %d %s -> %s %d %s", comp, k, c12OpsTok(ops), joinOrDash(res), b2i(dst.refused), z)
+}
+
+func r8C12(c *ctx) {
+	big := patBytes(6000, 5) // incompressible enough to leave in several destination writes
+	small := []byte("hello, hello, hello")
+	hists := [][]c12wop{
+		{{'W', big}, {'F', nil}},
+		{{'W', small}, {'F', nil}, {'W', big}, {'F', nil}},
+		{{'W', big}, {'W', big}, {'C', nil}},
+		{{'W', small}, {'F', nil}, {'W', small}, {'F', nil}, {'W', small}, {'C', nil}},
+	}
+	for _, comp := range []string{"f1", "f-2", "fnc1"} {
+		for hi, h := range hists {
+			for k := 0; k < 8; k++ {
+				if !c.thor && (hi+k)%2 == 1 && k > 3 {
+					continue
+				}
+				c12WT(c, comp, k, h)
+			}
+		}
+	}
+	// compressors whose whole output is a proper suffix of the tail (1-3 bytes): not a conforming flush
+	for _, comp := range []string{"suffix1", "suffix2", "suffix3"} {
+		c12W(c, comp, -1, []c12wop{{'W', small}, {'F', nil}})
+		c12W(c, comp, -1, []c12wop{{'F', nil}})
+		c12W(c, comp, -1, []c12wop{{'W', nil}, {'C', nil}})
 	}
 }
